@@ -285,11 +285,17 @@ extern int total_queries;
  */
 #define BEGIN(db) DEBUG_WRAP((db), sqlite3_exec((db), "begin", NULL, NULL, NULL))
 #define COMMIT(db) DEBUG_WRAP((db), sqlite3_exec((db), "commit", NULL, NULL, NULL))
-#define ROLLBACK(db) DEBUG_WRAP((db), sqlite3_exec((db), "rollback", NULL, NULL, NULL))
+/*
+ * A rollback that fails for a transient reason (it needs memory, too) would leave the transaction open and the CIF unusable,
+ * so a failed one is tried once more.
+ */
+#define ROLLBACK(db) ((DEBUG_WRAP((db), sqlite3_exec((db), "rollback", NULL, NULL, NULL)) == SQLITE_OK) ? SQLITE_OK \
+        : DEBUG_WRAP((db), sqlite3_exec((db), "rollback", NULL, NULL, NULL)))
 
 #define SAVE(db) DEBUG_WRAP((db), sqlite3_exec((db), "savepoint s", NULL, NULL, NULL))
 #define RELEASE(db) DEBUG_WRAP((db), sqlite3_exec((db), "release s", NULL, NULL, NULL))
-#define ROLLBACK_TO(db) DEBUG_WRAP((db), sqlite3_exec((db), "rollback to s", NULL, NULL, NULL))
+#define ROLLBACK_TO(db) ((DEBUG_WRAP((db), sqlite3_exec((db), "rollback to s", NULL, NULL, NULL)) == SQLITE_OK) ? SQLITE_OK \
+        : DEBUG_WRAP((db), sqlite3_exec((db), "rollback to s", NULL, NULL, NULL)))
 
 #define NESTTX_HANDLING int _top_tx
 #define BEGIN_NESTTX(db) ( \
